@@ -602,6 +602,11 @@ class Gen(object):
         for i, pt in enumerate(ptypes):
             if i < k_in:
                 args.append((i, self.expr(pt, dict(env), 1, allow_fcall=False)))
+            elif n in getattr(self, 'inj_hot', ()):
+                # output computed by a combine: always a fresh variable (unified with a
+                # bound one it would be the D11 class: a variable equated with an
+                # aggregate that may be derived from it)
+                args.append((i, ('var', self.newvar(env, pt))))
             else:
                 if rng.random() < 0.75 or not self.bound(env, pt):
                     args.append((i, ('var', self.newvar(env, pt))))
